@@ -89,7 +89,8 @@ def rule_expire(P):
                 if nst:
                     r.bad("K8:%s:now-overwritten" % f.name, nst[0].where(), f.name, "`%s` is modified after gettime" % nowv[1])
                 # loop: from the activation the head read is reachable again
-                if d.bid not in f.reach_blocks(a.bid) or not f.loops_of(a.bid):
+                # (a loop written with the head read in its initialiser and again in its step has two reads: the step is the one that is reached again)
+                if not any(d2.bid in f.reach_blocks(a.bid) for d2, k2 in heads if k2 == kind) or not f.loops_of(a.bid):
                     r.bad("K3:%s:one-timer-per-pass" % f.name, a.where(), f.name, "after an activation the next head is not examined (other due timers wait for a later iteration)")
     return r
 
